@@ -936,6 +936,11 @@ theorem wk_peerEv (cfg : Cfg) (hw : cfg.wake = true) (s : St) (e : Ev) (hf : Ful
     · rename_i hc
       exact hstep _ f (fun x => by rw [hc.2.1] at x; cases x)
     · exact honl f
+  | steppre w f =>
+    simp only [peerEv]
+    split
+    · intro _; rfl
+    · exact honl f
   | join w =>
     simp only [peerEv]
     split
@@ -1007,6 +1012,9 @@ theorem wk_next (cfg : Cfg) (hw : cfg.wake = true) (s : St) (e : Ev) (hf : Full 
                     · exact wk_peerEv cfg hw s _ hf h
                     · exact wk_swap (wk_peerEv cfg hw s.swap _ (full_swap hf) (wk_swap h))
     | steponl w f => cases w <;> simp only [Ev.who]
+                     · exact wk_peerEv cfg hw s _ hf h
+                     · exact wk_swap (wk_peerEv cfg hw s.swap _ (full_swap hf) (wk_swap h))
+    | steppre w f => cases w <;> simp only [Ev.who]
                      · exact wk_peerEv cfg hw s _ hf h
                      · exact wk_swap (wk_peerEv cfg hw s.swap _ (full_swap hf) (wk_swap h))
     | join w => cases w <;> simp only [Ev.who]
